@@ -222,6 +222,20 @@ func c09EvalHistory(w *mc.W, h c09History) {
 				m2, mod2 := mk(h.Cfg, true)
 				f.Reload(m2)
 				curMsg, model, loaded = m2, mod2, true
+			case op == "retweak" || op == "resize":
+				// the caller edits the message object the filter holds and hands the SAME pointer to Reload:
+				// from then on the filter is the edited message
+				if !loaded {
+					continue
+				}
+				if op == "retweak" {
+					curMsg.Tweak ^= 0x5a5a0101
+					model = ref.NewBloom(curMsg.Filter, curMsg.HashFuncs, curMsg.Tweak, byte(curMsg.Flags))
+				} else {
+					curMsg.Filter = bytes.Repeat([]byte{0x00}, len(curMsg.Filter)+3)
+					model = ref.NewBloom(curMsg.Filter, curMsg.HashFuncs, curMsg.Tweak, byte(curMsg.Flags))
+				}
+				f.Reload(curMsg)
 			case op == "isloaded":
 				if f.IsLoaded() != loaded {
 					fail("isloaded-wrong", where)
@@ -313,7 +327,7 @@ func c09EvalHistory(w *mc.W, h c09History) {
 			// no false negatives: everything inserted in this load epoch is present
 			epochStart := 0
 			for i, op := range h.Ops {
-				if op == "reload" || op == "unload" {
+				if op == "reload" || op == "reloadF" || op == "unload" || op == "retweak" || op == "resize" {
 					epochStart = i + 1
 				}
 			}
@@ -562,7 +576,7 @@ func runC09(c *mc.Ctx) {
 	// matches while loaded and nothing once unloaded - a "full" shortcut must follow the load state.
 	// Every history of <= 4 (5) operations over a 9-op menu on filters prefilled with 0xff.
 	{
-		fm := []string{"add:5", "m:5", "m:7h", "mop:oM", "reload", "reloadF", "unload", "isloaded", "addop:oN"}
+		fm := []string{"add:5", "m:5", "m:7h", "mop:oM", "reload", "reloadF", "unload", "isloaded", "addop:oN", "retweak", "resize"}
 		var hs []c09History
 		for _, cfg := range []c09Config{{Bytes: 1, Prefill: 0xff, HashFuncs: 1, Tweak: 0, Flags: 0}, {Bytes: 8, Prefill: 0xff, HashFuncs: 5, Tweak: 7, Flags: 1}, {Bytes: 3, Prefill: 0, HashFuncs: 2, Tweak: 7, Flags: 1}} {
 			var rec func(ops []string)
